@@ -627,7 +627,8 @@ func runJoinCase(t *rapid.T, spec joinSpec) {
 	}
 	dstNames := []string{"p1", "p2", "p3", "p4", "p5", "p6"}
 	ops := map[string]func(*rapid.T){}
-	selectorChange, cycle, srcAdded, srcRemoved := false, false, false, false
+	selectorChange, cycle, srcAdded, srcRemoved, reverted := false, false, false, false, false
+	srcHistory := map[string][]workload{}
 	srcPut := func(t *rapid.T) {
 		w := genJoinSource(t, spec.srcKind)
 		k := w.NS + "/" + w.Name
@@ -635,6 +636,7 @@ func runJoinCase(t *rapid.T, spec joinSpec) {
 		e.srcState[k] = w
 		after := e.expected()
 		e.src.putObj(workloadObject(spec.srcKind, w))
+		srcHistory[k] = append(srcHistory[k], w)
 		e.h("source put %s", w)
 		added, removed := diffStrings(before, after)
 		srcAdded = srcAdded || added > 0
@@ -865,6 +867,39 @@ func runJoinCase(t *rapid.T, spec joinSpec) {
 			e.check("after a source disappeared")
 		}
 	}
+	// a source takes a shape it had earlier in the history again (selector A -> B -> A, also across a
+	// delete and re-creation): the join has to follow every time, whatever it remembers about the past
+	ops["srcRevert"] = func(t *rapid.T) {
+		var ks []string
+		for k, hs := range srcHistory {
+			if len(hs) >= 2 {
+				ks = append(ks, k)
+			}
+		}
+		if len(ks) == 0 {
+			t.Skip("no source with a past")
+		}
+		sortStrings(ks)
+		k := rapid.SampledFrom(ks).Draw(t, "revkey")
+		hs := srcHistory[k]
+		w := hs[rapid.IntRange(0, len(hs)-2).Draw(t, "past")]
+		before := e.expected()
+		_, existed := e.srcState[k]
+		e.srcState[k] = w
+		after := e.expected()
+		e.src.putObj(workloadObject(spec.srcKind, w))
+		srcHistory[k] = append(srcHistory[k], w)
+		e.h("source %s an earlier shape again: %s", map[bool]string{true: "updated to", false: "re-created with"}[existed], w)
+		added, removed := diffStrings(before, after)
+		if added > 0 && removed > 0 {
+			selectorChange = true
+		}
+		reverted = true
+		if rapid.IntRange(0, 3).Draw(t, "checkNow") > 0 {
+			e.check("after a source took an earlier shape again")
+		}
+	}
+	ops["srcRevert2"] = ops["srcRevert"]
 	ops["check"] = func(t *rapid.T) { e.check("check") }
 	baseline := -1
 	ops["cycle"] = func(t *rapid.T) {
@@ -927,7 +962,7 @@ func runJoinCase(t *rapid.T, spec joinSpec) {
 	hist := append([]string(nil), e.hist...)
 	statCase("C09", hashString(spec.name+strings.Join(hist, ";")), (selectorChange || (srcAdded && srcRemoved)) && cycle, func() interface{} {
 		return map[string]interface{}{"join": spec.name, "history": hist}
-	}, "join_"+spec.name, fmt.Sprintf("create_close_cycle=%v", cycle), fmt.Sprintf("gated_first_lists=%d", len(releases)), fmt.Sprintf("empty_source_at_start=%v", emptyStart), fmt.Sprintf("join_closed_before_ready=%v", earlyClosed), fmt.Sprintf("join_context_cancelled_before_close=%v", e.ctxCancelled))
+	}, "join_"+spec.name, fmt.Sprintf("create_close_cycle=%v", cycle), fmt.Sprintf("gated_first_lists=%d", len(releases)), fmt.Sprintf("empty_source_at_start=%v", emptyStart), fmt.Sprintf("join_closed_before_ready=%v", earlyClosed), fmt.Sprintf("join_context_cancelled_before_close=%v", e.ctxCancelled), fmt.Sprintf("source_reverted_to_an_earlier_shape=%v", reverted))
 }
 
 func diffStrings(before, after []string) (added, removed int) {
